@@ -33,6 +33,18 @@ type workerOut struct {
 	Inconcl  []string          `json:"inconclusive"`
 	Done     bool              `json:"done"`
 	Notes    map[string]string `json:"notes"`
+	perSig   map[string]int
+}
+
+// admit: at most two witnesses per signature and worker, so that a frequently reproduced (known) finding
+// can never crowd out a different one.
+func (o *workerOut) admit(sym, trigger string) bool {
+	if o.perSig == nil {
+		o.perSig = map[string]int{}
+	}
+	o.Counters["a_violating_calls"]++
+	o.perSig[sym+"/"+trigger]++
+	return o.perSig[sym+"/"+trigger] <= 2 && len(o.Viols) < 2000
 }
 
 func quotePairs(pairs []kv) []string {
@@ -163,8 +175,8 @@ func runExchange(c *caseA) (res callResult) {
 }
 
 func workerMain(args []string) {
-	// args: w W seed nPass nRefuse logdir outfile
-	if len(args) != 7 {
+	// args: w W seed nPass nRefuse logdir outfile nSeq
+	if len(args) != 8 {
 		fmt.Fprintln(os.Stderr, "bad worker args")
 		os.Exit(2)
 	}
@@ -172,6 +184,7 @@ func workerMain(args []string) {
 	w, W, nPass, nRefuse := atoi(args[0]), atoi(args[1]), atoi(args[3]), atoi(args[4])
 	seed, _ := strconv.ParseInt(args[2], 10, 64)
 	logdir, outfile := args[5], args[6]
+	nSeq := atoi(args[7])
 	if cwd, _ := os.Getwd(); strings.HasPrefix(cwd, "/verif") || strings.HasPrefix(cwd, "/repo") {
 		fmt.Fprintln(os.Stderr, "worker must not run inside /verif or /repo")
 		os.Exit(2)
@@ -183,7 +196,7 @@ func workerMain(args []string) {
 		os.Rename(outfile+".tmp", outfile)
 	}
 	addViol := func(c *caseA, sym, what string, recs []record, res callResult) {
-		if len(out.Viols) >= 40 {
+		if !out.admit(sym, c.trigger()) {
 			return
 		}
 		d := map[string]any{"case": c.class(), "idx": c.Idx, "op": c.Op, "family": c.Family, "protect": c.Protect, "pairs_quoted": quotePairs(c.Pairs), "error_returned": fmt.Sprint(res.err)}
@@ -302,6 +315,8 @@ func workerMain(args []string) {
 			flush()
 		}
 	}
+	flush()
+	runSeqCases(out, seed, w, W, nSeq, logdir)
 	// nothing may arrive late
 	if recs, _ := readRecords(logdir, true); len(recs) != 0 {
 		out.Viols = append(out.Viols, violA{"stray-exchange", "unattributed", fmt.Sprintf("%d git credential records appeared after their call had returned", len(recs)), map[string]any{"argv": recs[0].Argv, "stdin_quoted": strconv.Quote(sbxTrunc(string(recs[0].Stdin)))}})
